@@ -43,7 +43,7 @@ FAMILIES = {
 
 
 def gen_cases(tier, seed):
-    n = 120 if tier == "quick" else 3000
+    n = 120 if tier == "quick" else 2000
     return [{"seed": seed * 100333 + i, "nmax": 80 if tier == "quick" or i % 6 else 400, "big": tier == "thorough" and i % 6 == 0, "thorough": tier == "thorough",
              "_cost": 1 if tier == "quick" or i % 6 else 6} for i in range(n)]
 
